@@ -266,9 +266,14 @@ def analyse(ur, diags, res):
             if m:
                 clause, tags = m[2], list(m[3])
         if kind in ('assert',) and body_span is not None and f is not None:
-            # an assertion inside an injected proof block belongs to the clauses of its function
-            tags = sorted(set(t for (_, _, _, tg) in ur.clause_tags_in_fn(f) for t in tg))
-            clause = f['id'] + '.proof'
+            # an assertion inside an injected proof block: its own marker if it has one (same proof block),
+            # otherwise it belongs to all clauses of its function
+            m = nearest_marker(ur.markers, body_span['line_start'], body_span['column_end'] if 'column_end' in body_span else body_span['column_start'], ur.lines)
+            if m and m[0] in ur.inj_proof and body_span['line_start'] - m[0] <= 3:
+                clause, tags = m[2], list(m[3])
+            else:
+                tags = sorted(set(t for (_, _, _, tg) in ur.clause_tags_in_fn(f) for t in tg))
+                clause = f['id'] + '.proof'
         if kind in ('pre', 'arith', 'decreases', 'closure-post'):
             # safety obligations: C08 (never panics / terminates); a closure contract carries its function's tags
             if kind == 'closure-post' and f is not None:
